@@ -1,6 +1,7 @@
 (** C02 — pinned statements (no accepted QoS1/2 publish is lost), state-machine level.
     Only [Theorem .. exact ..]. *)
 From Rumqtt Require Import Client.Run4 Client.Inv4 Client.Flow4 Client.Findings4 Client.Loop Client.LoopProofs Client.State5 Client.Inv5.
+From Rumqtt Require Import Client.Eff5 Client.Flow5.
 
 Theorem c02_accept_held : forall s p s' rep, Inv s -> op_ok s (Out (RPublish p)) = true -> p_qos p <> Q0 ->
   handle_outgoing_packet s (RPublish p) = Ok (s', rep) ->
@@ -45,7 +46,52 @@ Theorem c02_resume_needs_no_user_action : forall l r rest, Client.Loop.pending l
 Proof. exact Client.LoopProofs.pending_first. Qed.
 
 (* v5: clean() hands back everything held (publishes with their id and content, releases, the
-   parked publish).  c02_accept_held / c02_held are not ported to v5 (correspondence + monitors only). *)
+   parked publish); the version with the invariant, and c02_accept_held / c02_held / c02_held_iff for
+   v5, follow below (only the loop-level statements are not ported to v5). *)
 Theorem c02_clean_returns_held_v5_partial : forall s,
   snd (Client.State5.clean5 s) = Client.Inv5.held5 s /\ Client.Inv5.held5 (fst (Client.State5.clean5 s)) = [].
 Proof. exact Client.Inv5.clean5_returns_held. Qed.
+
+Theorem c02_clean_returns_held_v5 : forall s, Client.Inv5.Inv5 s ->
+  exists s' l, step5 s Clean5 = Ok (s', Cleaned5 l) /\ l = Client.Inv5.held5 s /\ Client.Inv5.held5 s' = [] /\ Client.Inv5.Inv5 s'
+               /\ (forall r, holds5 s r -> List.In r l).
+Proof. exact clean5_returns_held_inv. Qed.
+
+(* v5: an accepted QoS>0 publish is held: written and recorded under its id (free before), or parked
+   on a busy id.  A fresh id lies within the negotiated limit, a preset one within the configured one. *)
+Theorem c02_accept_held_v5 : forall s p s' rep,
+  Client.Inv5.Inv5 s -> Client.Inv5.op_ok5 s (Out5 (R5Publish p)) = true -> q_qos p <> Q0 ->
+  handle_outgoing_packet5 s (R5Publish p) = Ok (s', rep) ->
+  exists id, 1 <= id <= s5_max_limit s /\ (q_pkid p = 0 -> id <= s5_max s) /\ (q_pkid p <> 0 -> id = q_pkid p) /\
+    holds5 s' (R5Publish (with_pkid5 p id)) /\
+    ((rep = Some (P5Publish (with_pkid5 p id)) /\ Client.Inv5.busy5 s id = false /\
+      vget (s5_pub s') id = Some (Some (with_pkid5 p id)))
+     \/ (rep = None /\ s5_collision s' = Some (with_pkid5 p id) /\ Client.Inv5.busy5 s id = true)).
+Proof. exact accept_held5. Qed.
+
+(* v5: whatever is held stays held across every op but Clean, except through the listed exits:
+   final_ack5 (PUBACK for a publish, PUBCOMP for a release; any reason code),
+   refused_by_pubrec5 (v5 only: PUBREC with a failure reason ends the QoS 2 flow, no release),
+   moved_to_release5 (accepting PUBREC: the release of the same id is held from then on). *)
+Theorem c02_held_v5 : forall s o s', Client.Inv5.Inv5 s -> Client.Inv5.op_ok5 s o = true -> o <> Clean5 -> Client.Inv5.next5 s o = Some s' ->
+  forall r, holds5 s r -> holds5 s' r \/ final_ack5 o r \/ refused_by_pubrec5 o r \/ moved_to_release5 o r s'.
+Proof. exact keep_held5. Qed.
+
+Theorem c02_held_iff_v5 : forall s r, Client.Inv5.Inv5 s -> (List.In r (Client.Inv5.held5 s) <-> holds5 s r).
+Proof. exact in_held5. Qed.
+
+(* v5, run level: along every contract-honouring history a held request is still held at the end
+   unless an op of the history is one of its exits (or a Clean, which hands it back) *)
+Theorem c02_held_run_v5 : forall s h s', Client.Inv5.Inv5 s -> Client.Inv5.contract5 s h = true -> Client.Inv5.run5 s h = Some s' ->
+  forall r, holds5 s r -> holds5 s' r \/ exists o, List.In o h /\ exit5 o r.
+Proof. exact run5_keeps_held. Qed.
+
+Theorem c02_held_nontrivial_v5 :
+  let pq q tag := Out5 (R5Publish (mkPub5 q 0 tag tag None)) in
+  let h := [pq Q2 1; pq Q1 2; Inc5 (P5PubAck 2 0); pq Q1 3] in
+  Client.Inv5.contract5 (init5 2 false) (h ++ [Inc5 (P5PubRec 1 135); Inc5 (P5PubAck 1 128)]) = true /\
+  option_map Client.Inv5.held5 (Client.Inv5.run5 (init5 2 false) h) = Some [R5Publish (mkPub5 Q2 1 1 1 None); R5Publish (mkPub5 Q1 1 3 3 None)] /\
+  option_map Client.Inv5.held5 (Client.Inv5.run5 (init5 2 false) (h ++ [Inc5 (P5PubRec 1 135)])) = Some [R5Publish (mkPub5 Q1 1 3 3 None)] /\
+  option_map Client.Inv5.held5 (Client.Inv5.run5 (init5 2 false) (h ++ [Inc5 (P5PubRec 1 135); Inc5 (P5PubAck 1 128)])) = Some [] /\
+  option_map Client.Inv5.held5 (Client.Inv5.run5 (init5 2 false) (h ++ [Inc5 (P5PubRec 1 16)])) = Some [R5PubRel 1; R5Publish (mkPub5 Q1 1 3 3 None)].
+Proof. exact held5_nontrivial. Qed.
